@@ -477,14 +477,17 @@ def property_dependency_check(prop):
     if dep is None:
         return
 
+    # The dependency names a sibling Property; Section.__getitem__ only searches sub-Sections.
     try:
-        dep_obj = prop.parent[dep]
+        dep_obj = prop.parent.properties[dep]
     except KeyError:
         msg = "Property refers to a non-existent dependency object"
         yield ValidationError(prop, msg, LABEL_WARNING, validation_id)
         return
 
-    if prop.dependency_value not in dep_obj.values[0]:
+    # Without a dependency value the existence of the dependency is sufficient.
+    dep_val = prop.dependency_value
+    if dep_val is not None and dep_val not in dep_obj.values:
         msg = "Dependency-value is not equal to value of the property's dependency"
         yield ValidationError(prop, msg, LABEL_WARNING, validation_id)
 
@@ -515,13 +518,17 @@ def property_values_check(prop):
 
         if dtype.endswith("-tuple"):
             tuple_len = int(dtype[:-6])
-            if len(val) != tuple_len:
-                msg = "Tuple of length %s not consistent with dtype %s!" % (len(val), dtype)
+            # A value without a length (e.g. an int) cannot be a tuple value either.
+            val_len = len(val) if hasattr(val, "__len__") else None
+            if val_len != tuple_len:
+                msg = "Tuple of length %s not consistent with dtype %s!" % (val_len, dtype)
                 yield ValidationError(prop, msg, LABEL_WARNING, validation_id)
         else:
+            # Any failed conversion (e.g. TypeError for a date value in an int Property)
+            # means the value does not fit the dtype, cf. Property._validate_values.
             try:
                 dtypes.get(val, dtype)
-            except ValueError:
+            except Exception:
                 msg = "Property values not of consistent dtype!"
                 yield ValidationError(prop, msg, LABEL_WARNING, validation_id)
 
@@ -555,8 +562,8 @@ def property_values_string_check(prop):
     val_dtypes = []
 
     for val in prop.values:
-        # Do not continue if a value is None
-        if val is None:
+        # Do not continue if a value is None or not a string at all
+        if not isinstance(val, str):
             return
 
         curr_dtype = "string"
